@@ -33,6 +33,10 @@ class DesignH:
         self.counters = self.oracle.counters if self.oracle else {}
         self.nbits = sum(w for _, w in self.info.inputs)
         self.sync_ids = [a.id for a in self.info.assigns if a.dom == "sync"]
+        self.rr_monitor = self.sched == "rr" and self.props is not None and "C09" in self.props and self.static.ok
+        if self.rr_monitor:
+            self.comps = self.static.components()
+            self.comp_of = {t: c for c in self.comps for t in c}
 
     def _construct(self):
         dm = DependencyManager()
@@ -86,6 +90,8 @@ class DesignH:
 
     # -- tsx model interface
     def init(self):
+        if self.rr_monitor:
+            return tuple(0 for _ in self.sync_ids) + (tuple(0 for _ in self.static.trans),)
         return tuple(0 for _ in self.sync_ids)
 
     def alphabet(self, ref):
@@ -105,6 +111,32 @@ class DesignH:
             if g != ref[k]:
                 V.append(("C06", f"sync.witness: register of assignment {aid} in {a.body} is {g}, expected {ref[k]}"))
             nref.append(ref[k] ^ int(a.exp_toggle))
+        if self.rr_monitor:
+            last = self.oracle.last
+            waits = ref[-1]
+            nw = []
+            for comp in self.comps:
+                nrun = sum(1 for t in comp if last.runs[t])
+                nen = sum(1 for t in comp if last.enabled[t])
+                if nrun > 1:
+                    V.append(("C09", f"rr.multi_grant: {nrun} transactions of component {comp} run in one cycle"))
+                if nen and not nrun:
+                    V.append(("C09", f"rr.idle: component {comp} has an enabled transaction but nothing runs"))
+                if nen >= 2:
+                    self.oracle.count("nt_rr_contention")
+            for k, t in enumerate(self.static.trans):
+                if last.enabled[t] and not last.runs[t]:
+                    w = waits[k] + 1
+                    if w >= len(self.comp_of[t]):
+                        V.append(("C09", f"rr.starvation: {t} enabled for {w} consecutive cycles without a grant "
+                                         f"(component size {len(self.comp_of[t])})"))
+                        w = len(self.comp_of[t]) - 1
+                    nw.append(w)
+                    if w >= 2:
+                        self.oracle.count("nt_rr_waited_two_cycles")
+                else:
+                    nw.append(0)
+            nref.append(tuple(nw))
         if self.props is not None:
             V = [v for v in V if v[0] in self.props]
         return [f"{p}.{c}" for p, c in V], tuple(nref)
